@@ -8,9 +8,10 @@ import NV.Driver.Core
 import NV.Driver.Cap
 import NV.Driver.Listen
 import NV.Driver.Upfault
+import NV.Driver.Discovery
 namespace NV
 
-def steppers : List (List String → Option String) := [stepCore, stepCap, stepListen, stepUpfault]
+def steppers : List (List String → Option String) := [stepCore, stepCap, stepListen, stepUpfault, Disc.stepDiscovery]
 
 def step (line : String) : String :=
   let toks := line.splitOn " "
